@@ -165,9 +165,25 @@ def _replay(check: PropertyCheck, driver_module: str, path: str) -> int:
     return 0
 
 
+def _warm(_):
+    time.sleep(0.3)
+    return os.getpid()
+
+
+def _early_pool(n: int) -> ProcessPoolExecutor:
+    """The replay workers are forked NOW, while this process is small: forked after the scenarios are loaded, each of them
+    slowly turns into a private copy of the whole scenario list (reference counts touch every page)."""
+    pool = ProcessPoolExecutor(max_workers=n)
+    for _ in range(3):
+        if len(set(pool.map(_warm, range(n * 2)))) >= n:
+            break
+    return pool
+
+
 def _run(check: PropertyCheck, driver_module: str, tier: str, seed: int, t0: float, limit: int | None) -> int:
     prop = check.prop
     findings = load_findings(prop)
+    early = _early_pool(check.pool) if check.pool > 1 else None
     # ---- stage 1: model checking + scenario emission
     states = transitions = 0
     scenarios: list[tuple[dict, str]] = []
@@ -214,7 +230,7 @@ def _run(check: PropertyCheck, driver_module: str, tier: str, seed: int, t0: flo
     nontrivial_keys: set = set()
     samples: list = []
     n_cases = events = 0
-    pool = ProcessPoolExecutor(max_workers=check.pool) if check.pool > 1 and len(scenarios) > 8 else None
+    pool = early if len(scenarios) > 8 else None
     try:
         for start in range(0, len(scenarios), BATCH):
             part = scenarios[start:start + BATCH]
@@ -251,8 +267,8 @@ def _run(check: PropertyCheck, driver_module: str, tier: str, seed: int, t0: flo
                 c = cases[len(cases) // 2]
                 samples.append({"origin": c.origin, "scenario": c.scenario, "trace": c.trace[:4]})
     finally:
-        if pool is not None:
-            pool.shutdown()
+        if early is not None and not check.attached:
+            early.shutdown()
     # ---- composed whole-run validation (spec/Ropt.tla), restricted to this property's clauses
     whole = {"runs": 0, "events": 0, "foreign_rejections": 0}
     if check.whole_run_clauses:
@@ -307,8 +323,8 @@ def _run(check: PropertyCheck, driver_module: str, tier: str, seed: int, t0: flo
         asc += att["extra"](tier, seed) if att.get("extra") else []
         if not asc:
             raise MachineryError(f"attached specification {att['spec']}: no scenario to replay")
-        with ProcessPoolExecutor(max_workers=check.pool) as apool:
-            ares = list(apool.map(_drive_one, [(att_mod, s) for s in asc], chunksize=64))
+        apool = early if early is not None else ProcessPoolExecutor(max_workers=check.pool)
+        ares = list(apool.map(_drive_one, [(att_mod, s) for s in asc], chunksize=64))
         for s, (trace, features, err) in zip(asc, ares):
             if err:
                 raise MachineryError(f"driver failure of {att_mod} on {json.dumps(s)[:400]}:\n{err}")
@@ -328,6 +344,8 @@ def _run(check: PropertyCheck, driver_module: str, tier: str, seed: int, t0: flo
                         print(f"NOTE: {att['trace_module']} rejected a run at event {v['l']} with clause {v['clause']} "
                               f"(not a clause of {prop}; reported by the owning property's check)")
         attached_info.append(info)
+    if early is not None and check.attached:
+        early.shutdown()
     # ---- report
     rc = 0
     for f in findings:
